@@ -380,3 +380,40 @@ where
     packet.log_received(frames_collector);
     Ok(packet_content)
 }
+
+/// Verification hook (off unless built with `--cfg genmeta_gm_quic_verif`): runs the private per-space ACK frame
+/// handlers on caller-supplied components, nothing else. Shipped behaviour is unchanged.
+#[cfg(genmeta_gm_quic_verif)]
+pub mod verif_hooks {
+    use qbase::{
+        Epoch,
+        error::Error,
+        frame::{AckFrame, CryptoFrame, io::ReceiveFrame},
+    };
+    use qrecovery::{crypto::CryptoStream, journal::Journal};
+
+    use crate::{DataStreams, GuaranteedFrame};
+
+    /// `AckInitialSpace` / `AckHandshakeSpace`
+    pub fn recv_ack_crypto_space(
+        epoch: Epoch,
+        journal: &Journal<CryptoFrame>,
+        crypto_stream: &CryptoStream,
+        frame: AckFrame,
+    ) -> Result<(), Error> {
+        match epoch {
+            Epoch::Initial => super::AckInitialSpace::new(journal, crypto_stream).recv_frame(frame),
+            _ => super::AckHandshakeSpace::new(journal, crypto_stream).recv_frame(frame),
+        }
+    }
+
+    /// `AckDataSpace`
+    pub fn recv_ack_data_space(
+        journal: &Journal<GuaranteedFrame>,
+        data_streams: DataStreams,
+        crypto_stream: &CryptoStream,
+        frame: AckFrame,
+    ) -> Result<(), Error> {
+        super::AckDataSpace::new(journal, data_streams, crypto_stream).recv_frame(frame)
+    }
+}
